@@ -36,6 +36,7 @@ func runSessions(r *eng.Run, scripts []*script, stick, segMode int) ([]*sessResu
 	}
 	SharedFlateDialer = NewSharedDialer()
 	Broadcast = []byte(broadcastText)
+	SharedDebugUpgrader = NewSharedDebugUpgrader()
 	// Real sync.Pools (the library's own, or ones a change introduces) are a
 	// source of nondeterminism the sim pool does not cover: collections are
 	// only allowed here, between executions, and two of them empty every
@@ -138,8 +139,26 @@ func C19(r *eng.Run) {
 				// Every scripted session is built to succeed when run alone.
 				r.Failf("session_alone_wrong", "session %d run alone: %s", i, l)
 			}
-			if strings.Contains(l, "match=false") || strings.HasPrefix(l, "PANIC") || strings.Contains(l, "payload was modified") || strings.Contains(l, "was modified later") || strings.Contains(l, "intact=false") || strings.Contains(l, "its compressor emits") || strings.Contains(l, "wrong address") || strings.Contains(l, "wrong close report") || strings.Contains(l, "is not intact") || strings.Contains(l, "vanished: failed=false") {
+			if strings.Contains(l, "match=false") || strings.HasPrefix(l, "PANIC") || strings.Contains(l, "payload was modified") || strings.Contains(l, "was modified later") || strings.Contains(l, "intact=false") || strings.Contains(l, "its compressor emits") || strings.Contains(l, "wrong address") || strings.Contains(l, "wrong close report") || strings.Contains(l, "is not intact") || strings.Contains(l, "(own=false)") || strings.Contains(l, "rejection: no response") || strings.Contains(l, "vanished: failed=false") {
 				r.Failf("session_alone_wrong", "session %d run alone: %s", i, l)
+			}
+		}
+		// Both peers of a session report the same subprotocol and extensions,
+		// at the handshake and when they look again at the end.
+		for _, prefix := range []string{"handshake: protocol=", "final: protocol="} {
+			var cl, sl string
+			for _, l := range alone[0].cli.lines {
+				if strings.HasPrefix(l, prefix) {
+					cl = l
+				}
+			}
+			for _, l := range alone[0].srv.lines {
+				if strings.HasPrefix(l, prefix) {
+					sl = l
+				}
+			}
+			if cl != "" && sl != "" && cl != sl {
+				r.Failf("session_alone_wrong", "session %d run alone: the peers report different handshake results:\n    client: %s\n    server: %s", i, cl, sl)
 			}
 		}
 		if d := diffTr(together[i].cli.lines, alone[0].cli.lines); d != "" {
